@@ -58,6 +58,7 @@ structure St (α ρ : Type) where
   ocap : Nat := 0                    -- cap(Output) (`BufferSize` as given)
   outq : List ρ := []                -- contents of the `Output` channel
   errs : Nat := 0                    -- errors sent to `errChan`
+  errored : List Nat := []           -- sequence numbers whose fetch goroutine has sent its error
 
 /-- `NewReorderFetcher` over `NewEventBatcher` -/
 def init {α ρ : Type} (maxSize : Nat) (hasDelay : Bool) (bufferSize : Nat) : St α ρ :=
@@ -86,7 +87,8 @@ inductive Act (α : Type) where
   | lock (t : Tid)        -- `flushMu.Lock()`
   | flushA (t : Tid)      -- `batcher.Flush(CurrentBatch)`
   | flushB (t : Tid)      -- empty: unlock, return; else `Reserve` (blocks when full), unlock, spawn fetch
-  | fetchDone (seq : Nat) -- fetch goroutine: (error ⇒ `errChan <- err`) `buffer.Add(seq, result)`
+  | fetchErr (seq : Nat)  -- fetch goroutine whose fetch failed: `errChan <- err` (before `buffer.Add`, no mutex)
+  | fetchDone (seq : Nat) -- fetch goroutine: `buffer.Add(seq, result)`
   | drainStart            -- a fetch goroutine enters `buffer.Drain()`: `b.mu.Lock()`
   | drainNext             -- next loop iteration: dequeue `items[drainedSeqNum]`, or end the drain (`b.mu.Unlock()`)
   | send                  -- `d.Output <- result` (needs room in the channel)
@@ -96,6 +98,11 @@ deriving Repr
 def lookupSeq {α : Type} (seq : Nat) : List (Nat × List α) → Option (List α)
   | [] => none
   | (k, e) :: rest => if k = seq then some e else lookupSeq seq rest
+
+/-- what the goroutine inside `Drain` still has to send of the batch it dequeued -/
+def curOf {ρ : Type} : Option (List ρ) → List ρ
+  | some l => l
+  | none => []
 
 /-- result of the fetch for the batch with sequence number `p.1`: a failed fetch hands `buffer.Add` an empty result -/
 def resultOf {α ρ : Type} (f : List α → List ρ) (fails : Nat → Bool) (p : Nat × List α) : List ρ :=
@@ -144,13 +151,21 @@ def step {α ρ : Type} (f : List α → List ρ) (fails : Nat → Bool) (atomic
                               inflight := s.inflight ++ [(s.nextSeq, e :: es)] } t .idle, [])
       else none
     | _ => none
+  | .fetchErr seq =>
+    match lookupSeq seq s.inflight with
+    | some _ =>
+      if fails seq && !s.errored.contains seq then
+        some ({ s with errs := s.errs + 1, errored := seq :: s.errored }, [])
+      else none
+    | none => none
   | .fetchDone seq =>
     match s.drainer, lookupSeq seq s.inflight with
     | none, some evs =>
-      some ({ s with inflight := s.inflight.filter (fun p => p.1 != seq),
-                     items := fun k => if k = seq then some (resultOf f fails (seq, evs)) else s.items k,
-                     drainers := s.drainers + 1,
-                     errs := if fails seq then s.errs + 1 else s.errs }, [])
+      if fails seq && !s.errored.contains seq then none   -- the error is sent first
+      else
+        some ({ s with inflight := s.inflight.filter (fun p => p.1 != seq),
+                       items := fun k => if k = seq then some (resultOf f fails (seq, evs)) else s.items k,
+                       drainers := s.drainers + 1 }, [])
     | _, _ => none
   | .drainStart =>
     match s.drainer, s.drainers with
